@@ -75,12 +75,96 @@ H = 2.0 ** -10
 _ac = None
 _chems = {}
 
+class OwnedGlobals:
+    """Process-global mutable state of `thermosteam.equilibrium.*` that could alias two executions (DESIGN 1.2): every small
+    module-level and class-level set / dict / list / ndarray of the modules below (the interning caches `_cached` / `cache`, and
+    anything a change may add next to them, e.g. an "already warned" set).  Captured once, right after the first import and before
+    any model has been built; `restore()` puts every container back to that baseline before each execution, `bracket()` runs a block on
+    the baseline and reinstates the explored content afterwards, `digest()` is the part of the explored state that lives there.
+    Large reference tables (group and interaction parameter dictionaries, > 16 entries at import) are treated as constants."""
+    MODULES = ('activity_coefficients', 'bubble_point', 'dew_point', 'fugacity_coefficients', 'poyinting_correction_factors', 'ideal', 'domain')
+
+    def __init__(self): self.items = None
+
+    def capture(self):
+        if self.items is not None: return
+        import importlib, copy
+        items = []; seen = set()
+        for mn in self.MODULES:
+            mod = importlib.import_module('thermosteam.equilibrium.' + mn)
+            holders = [(mod, mn)] + [(v, mn + '.' + k) for k, v in vars(mod).items() if isinstance(v, type) and v.__module__ == mod.__name__]
+            for holder, label in holders:
+                for k, v in list(vars(holder).items()):
+                    if k.startswith('__') or id(v) in seen: continue
+                    if isinstance(v, (set, dict, list)) and len(v) <= 16:
+                        seen.add(id(v)); items.append((label + '.' + k, v, copy.copy(v)))
+                    elif isinstance(v, np.ndarray) and v.size <= 4096:
+                        seen.add(id(v)); items.append((label + '.' + k, v, v.copy()))
+        self.items = items
+
+    @staticmethod
+    def _same(v, base):
+        if isinstance(v, np.ndarray): return v.shape == base.shape and v.tobytes() == base.tobytes()
+        if isinstance(v, dict):
+            return len(v) == len(base) and all(k in base and base[k] is x for k, x in v.items())
+        if isinstance(v, list): return len(v) == len(base) and all(a is b for a, b in zip(v, base))
+        return v == base
+
+    @staticmethod
+    def _set(v, content):
+        if isinstance(v, np.ndarray):
+            if v.shape == content.shape: v[...] = content
+        elif isinstance(v, dict): v.clear(); v.update(content)
+        elif isinstance(v, set): v.clear(); v.update(content)
+        else: v[:] = content
+
+    def restore(self):
+        self.capture()
+        for label, v, base in self.items:
+            if not self._same(v, base): self._set(v, base)
+
+    def bracket(self):
+        owner = self
+        class _B:
+            def __enter__(b):
+                import copy
+                owner.capture()
+                b.saved = [(v, v.copy() if isinstance(v, np.ndarray) else copy.copy(v)) for _, v, _b in owner.items]
+                owner.restore()
+            def __exit__(b, *exc):
+                for v, content in b.saved: owner._set(v, content)
+                return False
+        return _B()
+
+    @staticmethod
+    def _tok(x):
+        if hasattr(x, 'ID'): return x.ID
+        if isinstance(x, tuple): return tuple(OwnedGlobals._tok(i) for i in x)
+        if isinstance(x, (set, frozenset)): return ('set',) + tuple(sorted(repr(OwnedGlobals._tok(i)) for i in x))
+        if isinstance(x, type): return x.__name__
+        if isinstance(x, (int, float, str, bool)) or x is None: return x
+        return type(x).__name__
+
+    def digest(self):
+        self.capture()
+        out = []
+        for label, v, base in self.items:
+            if self._same(v, base): continue
+            if isinstance(v, np.ndarray): out.append((label, tuple(fx.r12(t) for t in v.ravel())))
+            elif isinstance(v, dict): out.append((label, tuple(sorted(repr((self._tok(k), self._tok(x))) for k, x in v.items()))))
+            else: out.append((label, tuple(sorted(repr(self._tok(k)) for k in v))))
+        return tuple(out)
+
+OWNED = OwnedGlobals()
+
+
 def _load():
     global _ac
     if _ac is None:
         tmo = fx.tmo()
         from thermosteam.equilibrium import activity_coefficients as ac
         _ac = ac
+        OWNED.capture()       # before any model object exists in this process
         for ID in POOL + NOGROUP:
             c = fx.chemical(ID)
             _chems[('std', ID)] = c
@@ -129,21 +213,35 @@ def _check_used(st):
     return bad
 
 def clear_interned():
-    ac = _load()
-    for c in (ac.UNIFACActivityCoefficients, ac.DortmundActivityCoefficients, ac.NISTActivityCoefficients):
-        c._cached.clear()
+    """every owned process-global container back to its import-time content (interning caches empty)"""
+    _load()
+    OWNED.restore()
+
+def obj_digest(o):
+    """every field of a model object (all slots of all its classes + __dict__): nothing it remembers between calls may be missing from canon"""
+    names = []
+    for c in type(o).__mro__:
+        sl = c.__dict__.get('__slots__', ())
+        names += [sl] if isinstance(sl, str) else list(sl)
+    names += list(getattr(o, '__dict__', {}))
+    out = []
+    for nm in dict.fromkeys(names):
+        try: v = getattr(o, nm)
+        except AttributeError: continue
+        if isinstance(v, np.ndarray): out.append((nm, v.shape, tuple(fx.r12(t) for t in np.asarray(v, float).ravel())))
+        elif isinstance(v, (float, int, bool)) or v is None: out.append((nm, v))
+        elif isinstance(v, tuple): out.append((nm, tuple(getattr(c, 'ID', type(c).__name__) for c in v)))
+        else: out.append((nm, type(v).__name__))
+    return (type(o).__name__, tuple(out))
 
 class isolated:
     """run a block with EMPTY interning caches and put the explored caches back afterwards (fresh twins must neither see nor
     disturb the state under exploration, whatever the library uses as cache key)"""
     def __enter__(self):
-        ac = _load()
-        self.saved = [(c._cached, dict(c._cached)) for c in (ac.UNIFACActivityCoefficients, ac.DortmundActivityCoefficients, ac.NISTActivityCoefficients)]
-        for c, _ in self.saved: c.clear()
+        _load()
+        self.b = OWNED.bracket(); self.b.__enter__()
     def __exit__(self, *exc):
-        for c, d in self.saved:
-            c.clear(); c.update(d)
-        return False
+        return self.b.__exit__(*exc)
 
 # ---- composition grids ---------------------------------------------------------------------------
 
@@ -601,6 +699,7 @@ class History(System):
     def warm(self): _load()
     def reset_globals(self): clear_interned()
     def depth(self, tier): return None      # closure
+    def time_cap(self, tier): return 120 if tier == 'quick' else 900      # a library that grows new per-object memory can blow the closure up; reported as a cap
     def configs(self, tier, seed):
         return [(m, a, b) for m in GROUP_MODELS for (a, b) in self.PAIRS]
 
@@ -622,10 +721,8 @@ class History(System):
         out = []
         cached = list(_cls(st.model)._cached.values())
         for o in list(st.objs) + [o for o in cached if not any(o is p for p in st.objs)]:
-            gp = getattr(o, '_group_psis', None)
-            out.append((type(o).__name__, tuple(c.ID for c in getattr(o, '_chemicals', ())),
-                        None if gp is None else tuple(fx.r12(v) for v in np.asarray(gp, float).ravel()), self._const(o)))
-        return (st.model, st.ids, tuple(out[:2]) + tuple(sorted(out[2:], key=repr)))
+            out.append(obj_digest(o))        # every field, not a fixed list: a new memo field is state too
+        return (st.model, st.ids, tuple(out[:2]) + tuple(sorted(out[2:], key=repr)), OWNED.digest())
 
     def invariants(self, st):
         out = []
@@ -645,6 +742,9 @@ class History(System):
                 for xi in range(len(self.XS[n])):
                     for T in (250.0, 450.0, 300.0):
                         acts.append((via, k, xi, T))
+        # construct (and evaluate once) a model of ANOTHER family for the chemical objects of list A: whatever that leaves behind
+        # in process-global state must not change what a model of this family built afterwards returns
+        acts.append(('switch', 0, 0, 300.0))
         for k in (2, 3):        # the reversed lists, requested through the class at call time
             n = len(st.ids[k])
             for via in ('call', 'f'):
@@ -665,6 +765,21 @@ class History(System):
         via, k, xi, T = a
         ids = st.ids[k]; model = st.model
         x = self.XS[len(ids)][xi]
+        if via == 'switch':
+            other = {'UNIFAC': 'NIST', 'Dortmund': 'NIST', 'NIST': 'UNIFAC'}[model]
+            chems = _chemicals(model, ids)
+            try:
+                o = _cls(other)(chems)
+                g = np.asarray(o(np.array(x, float), T), float)
+                with isolated():
+                    ref = np.asarray(_cls(other)(chems)(np.array(x, float), T), float)
+            except Exception as e:
+                raise _unexpected(e, other, 'construct')
+            st.info = g.copy()
+            if g.shape != ref.shape or not np.allclose(g, ref, rtol=1e-12, atol=0):
+                raise Violation('history-dependent', f'{other}{ids} built after {model} models: {g.tolist()}, fresh process state: {ref.tolist()}',
+                                match=dict(model=other, via='switch', requested='base'))
+            return ('switch', other, _sig(g))
         if k >= 2:
             x = tuple(reversed(self.XS[len(ids)][xi]))       # the base composition in the reversed order
             try:
